@@ -97,6 +97,11 @@ func (s stakeTx) Validate(ctx *action.Context, tx action.SignedTx) (bool, error)
 		return false, action.ErrInvalidPubkey
 	}
 
+	// the amount is read through Int64(): anything outside that range would be
+	// debited as one number and recorded as another
+	if !st.Stake.Value.BigInt().IsInt64() {
+		return false, errors.Wrap(action.ErrInvalidAmount, st.Stake.String())
+	}
 	coin := st.Stake.ToCoinWithBase(ctx.Currencies)
 	if !coin.IsValid() {
 		return false, errors.Wrap(action.ErrInvalidAmount, coin.String())
